@@ -29,7 +29,7 @@ def run_pair(exe, cases):
         lc = dict(c)
         if c["op"] == "svc":
             lc = fill_svc(c, i)
-        elif c["op"] == "handler" and isinstance(i, dict) and "http" in i:
+        elif c["op"] in ("handler", "mech") and isinstance(i, dict) and "http" in i:
             lc["impl"] = i
         lcases.append(lc)
     model = vlib.run_cases(vlib.driver_cmd(), lcases)
@@ -42,6 +42,12 @@ def fill_svc(case, impl):
     lc = copy.deepcopy(case)
     ok = isinstance(impl, list) and len(impl) == len(case["reqs"])
     for k, rq in enumerate(lc["reqs"]):
+        special = gen_errmap.svc_scenario(rq["path"], (rq.get("hdr") or {}).get("X-Mode"))
+        if special is not None:
+            # the outcome of the CEL expressions / the configured redirect code is computed by the generator's
+            # oracle, never taken from what the implementation did
+            rq["ctx"] = special["ctx"]
+            continue
         sc = gen_errmap.SVC_PATHS.get(rq["path"])
         obs = impl[k].get("err") if ok and isinstance(impl[k], dict) else None
         if sc is None:
@@ -67,9 +73,11 @@ def expected_class_ok(case, impl):
     if not isinstance(impl, list):
         return ["no answer list"]
     for rq, a in zip(case["reqs"], impl):
-        sc = gen_errmap.SVC_PATHS.get(rq["path"])
-        resp = a.get("resp", {}) if isinstance(a, dict) else {}
+        sc = gen_errmap.svc_scenario(rq["path"], (rq.get("hdr") or {}).get("X-Mode"))
         if sc is None:
+            sc = gen_errmap.SVC_PATHS.get(rq["path"])
+        resp = a.get("resp", {}) if isinstance(a, dict) else {}
+        if sc is None or sc["cls"] is None:
             if resp.get("out") != "ok":
                 bad.append((rq, resp, "request without failure was not let through"))
             continue
@@ -77,7 +85,7 @@ def expected_class_ok(case, impl):
             bad.append((rq, resp, "no error response"))
             continue
         if sc["cls"] == "redirect":
-            want = case.get("rcode") or 302
+            want = sc.get("code") or case.get("rcode") or 302
         else:
             cfg = case.get("pcfg", case["cfg"]) if rq["svc"] == "proxy" else case["cfg"]
             want = cfg["ov"].get(sc["cls"], 0) or defaults[sc["cls"]]
@@ -152,6 +160,17 @@ def verdict(case, i, m):
         return ("driver", f"the model driver gave no result: {str(m)[:300]}")
     res = m["res"]
     spec = m.get("spec")
+    if case["op"] == "mech":
+        if not isinstance(i, dict) or "http" not in i:
+            return ("impl-vs-spec", f"a redirect error handler configured with code {case['code']} "
+                                    f"({'unset' if case.get('unset') else 'set'}) gave no answer: {str(i)[:300]}")
+        for side in ("http", "grpc"):
+            if vlib.canon(norm(i[side])) != vlib.canon(norm(res[side])):
+                kind = "impl-vs-spec" if isinstance(spec, dict) and spec.get(side) is not True else "impl-vs-model"
+                return (kind, f"redirect error handler configured with code "
+                              f"{'(none)' if case.get('unset') else case['code']}: {side} answer {json.dumps(i[side])}, "
+                              f"the handler's status code and Location demand {json.dumps(res[side])}")
+        return None
     if case["op"] == "handler":
         if not isinstance(i, dict) or "http" not in i:
             return ("impl-crash", f"harness gave no answer: {str(i)[:300]}")
@@ -255,6 +274,10 @@ def run(R):
             hcases.append(gen_errmap.handler_case(gen_errmap.PLAIN_CFG, None, {"k": "absent"}, e))
     himpl, hmodel, _ = run_pair(exe, hcases)
 
+    # ---- stream 1b: redirect error handlers created by the real mechanism from configuration
+    mcases = [c for c in corpus if c["op"] == "mech"] + gen_errmap.mech_cases()
+    mimpl, mmodel, _ = run_pair(exe, mcases)
+
     # ---- stream 2: the assembled services
     n_stacks = 4 if quick else 150
     scases = s_corpus + [gen_errmap.gen_svc_case(R.rng, R.tmp, plain=(k == 0)) for k in range(n_stacks)]
@@ -269,7 +292,8 @@ def run(R):
     cimpl, cmodel, _ = run_pair(exe, ccases)
 
     bad = []
-    for cases, impl, model in ((hcases, himpl, hmodel), (scases, simpl, smodel), (ccases, cimpl, cmodel)):
+    for cases, impl, model in ((hcases, himpl, hmodel), (mcases, mimpl, mmodel), (scases, simpl, smodel),
+                               (ccases, cimpl, cmodel)):
         for c, i, m in zip(cases, impl, model):
             v = verdict(c, i, m)
             if v is not None:
@@ -289,14 +313,21 @@ def run(R):
             nontriv.add(vlib.case_hash({"e": c["err"], "c": c["cfg"], "a": c["acc"]}))
     svc_counts = collections.Counter()
     svc_status = collections.Counter()
+    cel_outcomes = collections.Counter()
+    redirect_codes = collections.Counter()
     for c, i in zip(scases, simpl):
         if isinstance(i, list):
             for rq, a in zip(c["reqs"], i):
                 svc_counts[rq["svc"] + " " + rq["path"]] += 1
                 svc_status[str((a.get("resp") or {}).get("status"))] += 1
+                sc = gen_errmap.svc_scenario(rq["path"], (rq.get("hdr") or {}).get("X-Mode"))
+                if sc and rq["path"].startswith("/cel/"):
+                    cel_outcomes[rq["path"] + " -> " + str(sc["cls"])] += 1
+                if sc and sc["cls"] == "redirect" and "code" in sc:
+                    redirect_codes[str(sc["code"])] += 1
     n_svc_req = sum(len(c["reqs"]) for c in scases)
     R.coverage.update({
-        "evaluations": len(hcases) + n_svc_req + len(ccases),
+        "evaluations": len(hcases) + len(mcases) + n_svc_req + len(ccases),
         "distinct_nontrivial": len(nontriv),
         "rule": "handler stream: an error value built as a real Go value (all 8 sentinels, *RedirectError, 5 foreign "
                 "error types incl. a real cellib.EvalError, fmt %w wraps and a foreign wrapper, errors.Join / multi-%w, "
@@ -307,12 +338,21 @@ def run(R):
                 "value has at least two leaves of different response classes (precedence matters); distinct by hash of "
                 "(error term, configuration, Accept). services stream: decision, proxy and Envoy gRPC services "
                 "assembled from a configuration file (real loader, mechanisms, rule factory, executor, services' own "
-                "constructors) on loopback ports, failures provoked with real mechanisms on 12 of 13 paths",
+                "constructors) on loopback ports, failures provoked with real mechanisms on 12 of 13 plain paths, "
+                "plus 6 paths with real CEL authorizers / `if` conditions / error handler conditions evaluated for "
+                "requests on which they are true, false or fail at runtime (missing map key, index out of range, "
+                "division by zero, missing subject attribute), plus one redirect error handler per status code in "
+                "{300,301,302,303,307,308} and two non-3xx codes per stack; mechanism stream: redirect error handlers "
+                "created by the real factory from configuration with 26 codes (unset, 3xx, 2xx, 4xx, 5xx, out of "
+                "range, negative)",
         "handler_cases": len(hcases), "handler_random": n_random, "pair_cases": len(gen_errmap.pair_cases()),
         "override_cases": len(gen_errmap.override_cases()),
         "service_stacks": len(scases), "service_requests": n_svc_req,
         "service_requests_by_path": dict(sorted(svc_counts.items())),
         "service_statuses": dict(sorted(svc_status.items())),
+        "service_cel_paths_by_expected_class": dict(sorted(cel_outcomes.items())),
+        "service_redirect_handler_codes": dict(sorted(redirect_codes.items())),
+        "mechanism_cases": len(mcases),
         "cfgkeys_cases": len(ccases), "corpus_cases": len(corpus),
         "distribution": dict((k, dict(sorted(v.items()))) for k, v in sorted(stats.items())),
         "samples": [hcases[len(h_corpus) + len(gen_errmap.pair_cases()) + len(gen_errmap.override_cases())],
@@ -330,6 +370,9 @@ def run(R):
         "net/http, gRPC, Envoy, the elnormous/contenttype parser (Accept header syntax), encoding/json and encoding/xml "
         "are modelled by their observable results and validated by the correspondence run only",
         "status codes travel as unbounded integers in the model (int / int32 in Go)",
+        "CEL evaluation is not modelled: whether an expression of the services stream is true, false or fails at "
+        "runtime for a request is computed by the generator's oracle (cel_map / cel_idx / cel_div), the model starts "
+        "from that outcome",
         "Accept headers reach the model in parsed form; the rendering of the generator is trusted",
     ]
 
@@ -337,7 +380,7 @@ def run(R):
     reported = 0
     seen_kinds = set()
     for c, i, m, (kind, detail) in bad:
-        sig = (kind, c["op"], detail.split(" answer")[0].split(" ")[-1][:40])
+        sig = (kind, c["op"], detail.split(" answer")[0][-40:])
         if sig in seen_kinds or reported >= 6:
             continue
         seen_kinds.add(sig)
